@@ -103,6 +103,8 @@ def data_table(kind, k):
         rows = [[str(k * 10 + 6), "g%d" % k], [str(k * 10 + 7), "h%d" % k], [str(k * 10 + 6), "i%d" % k]]
     elif kind == "E":  # five names: the count rule of the CID raises at the end of this file
         rows = [[str(k * 100 + n), "n%d%d" % (k, n)] for n in range(1, 6)]
+        # two of the five differ only in the kind of line break they hold
+        rows[1][1], rows[3][1] = "n\r\n%d" % k, "n\n%d" % k
     elif kind == "Z":  # nothing but the header row: no row is ever accepted or rejected (the API decides what that means)
         rows = []
     elif kind == "T":  # an accepted file; it is named with a trailing separator, which no regular file can be opened by
@@ -125,6 +127,9 @@ def built_verdict(kind, until):
 
 
 def write_table(path, table):
+    if not path.endswith(".csv"):
+        # only delimited text holds any kind of line break inside a cell: elsewhere letters stand in for them
+        table = [[cell.replace("\r", "R").replace("\n", "N") for cell in row] for row in table]
     if path.endswith(".ods"):
         enc_ods.write(path, [table])
     elif path.endswith(".xlsx"):
